@@ -66,11 +66,169 @@ def model_outline(prog, r):
                                           "required": required, "ent": e})
     return out
 
+# ------------------------------------------------------------------ submodule units (the reference model has none)
+class _E:  # stands in for a model entity in messages and in the workspace-symbol member list
+    def __init__(self, kind):
+        self.kind, self.attrs = kind, {}
 
-def check_program(ctx, prog, layout, queries, scratch):
+
+@st.composite
+def submod_bundle_st(draw):
+    """One extra file: a host module with separate-module-procedure interfaces, a submodule of it and a
+    submodule of that submodule ('submodule (host:parent) name'), in drawn header spellings, END forms
+    and contents.  -> {"lines": [...], "entries": [(name, kind, container, sline, eline, required)], "forms": [...]}"""
+    lines, entries, forms = [], [], []
+
+    def unit(kind, name, header, body, contains):
+        sl = len(lines)
+        lines.append(header)
+        for b in body:
+            b(name)
+        if contains:
+            lines.append("contains")
+            for c in contains:
+                c(name)
+        ef = draw(st.sampled_from(["full", "full", "kind", "bare", "joined"]))
+        forms.append(f"end-{ef}")
+        lines.append({"full": f"end {kind} {name}", "kind": f"end {kind}", "bare": "end", "joined": f"end{kind} {name}"}[ef])
+        entries.append((name, 2, None, sl, len(lines) - 1, True))
+
+    def block(kind_no, opener, closer, inner=()):
+        def emit(container):
+            def go(name_):
+                sl = len(lines)
+                lines.append("  " + opener)
+                for i in inner:
+                    lines.append("    " + i)
+                lines.append("  " + closer)
+                return sl
+            return go
+        return emit
+
+    def proc(kind, name, args="", pre="", extra=(), required=True):
+        def go(container):
+            sl = len(lines)
+            res = f" result(r_{name})" if kind == "function" else ""
+            lines.append(f"  {pre}{kind} {name}({args}){res}")
+            if args:
+                lines.append(f"    integer, intent(in) :: {args}")
+            if kind == "function":
+                lines.append(f"    integer :: r_{name}")
+                if not pre.startswith("module") or container != "zq_host":
+                    lines.append(f"    r_{name} = 1")
+            for x in extra:
+                lines.append("    " + x)
+            lines.append(f"  end {kind} {name}")
+            entries.append((name, 12, container, sl, len(lines) - 1, required))
+        return go
+
+    def typ(name):
+        def go(container):
+            sl = len(lines)
+            lines.append(f"  type :: {name}")
+            lines.append(f"    integer :: c_{name}")
+            lines.append(f"  end type {name}")
+            entries.append((name, 5, container, sl, len(lines) - 1, True))
+            entries.append((f"c_{name}", None, name, sl + 1, sl + 1, False))
+        return go
+
+    def var(name):
+        def go(container):
+            lines.append(f"  integer :: {name}")
+            entries.append((name, None, container, len(lines) - 1, len(lines) - 1, False))
+        return go
+
+    def iface(container):
+        lines.append("  interface")
+        sl = len(lines)
+        lines.append("    module subroutine zq_work(a)")
+        lines.append("      integer, intent(in) :: a")
+        lines.append("    end subroutine zq_work")
+        entries.append(("zq_work", None, None, sl, sl + 2, False))
+        sl = len(lines)
+        lines.append("    module function zq_get() result(r_zq_get)")
+        lines.append("      integer :: r_zq_get")
+        lines.append("    end function zq_get")
+        entries.append(("zq_get", None, None, sl, sl + 2, False))
+        lines.append("  end interface")
+
+    unit("module", "zq_host", "module zq_host", [lambda n: lines.append("  implicit none"), var("zq_hv"), iface], [proc("subroutine", "zq_hp")] if draw(st.booleans()) else [])
+    sp1 = draw(st.sampled_from(["submodule (zq_host) zq_s1", "submodule(zq_host) zq_s1", "submodule ( zq_host ) zq_s1", "SUBMODULE (ZQ_HOST) ZQ_S1"]))
+    impl = draw(st.sampled_from(["module-sub", "module-procedure", "none"]))
+    forms.append("impl-" + impl)
+    c1 = []
+    if impl == "module-sub":
+        c1.append(proc("subroutine", "zq_work", args="a", pre="module "))
+        c1.append(proc("function", "zq_get", pre="module "))
+    elif impl == "module-procedure":
+        def mp(container):
+            sl = len(lines)
+            lines.append("  module procedure zq_work")
+            lines.append("    zq_hv = a")
+            lines.append("  end procedure zq_work")
+            entries.append(("zq_work", 12, container, sl, sl + 2, False))
+        c1.append(mp)
+    if draw(st.booleans()):
+        c1.append(proc("subroutine", "zq_local1"))
+    c1 = list(draw(st.permutations(c1)))
+    unit("submodule", "zq_s1", sp1, [lambda n: lines.append("  implicit none")] + ([typ("zq_t1")] if draw(st.booleans()) else []) + ([var("zq_v1")] if draw(st.booleans()) else []), c1)
+    if draw(st.integers(0, 3)) > 0:
+        sp2 = draw(st.sampled_from(["submodule (zq_host:zq_s1) zq_s2", "submodule (zq_host : zq_s1) zq_s2", "submodule(zq_host:zq_s1)zq_s2",
+                                    "submodule ( zq_host:zq_s1 ) zq_s2", "Submodule (zq_host:Zq_S1) Zq_S2"]))
+        forms.append("nested:" + ("tight" if ")zq" in sp2 else ("spaced" if " : " in sp2 or "( " in sp2 else "plain")))
+        c2 = [proc("function", "zq_f2")] + ([proc("subroutine", "zq_p2", args="k")] if draw(st.booleans()) else [])
+        unit("submodule", "zq_s2", sp2, [lambda n: lines.append("  implicit none")] + ([typ("zq_t2")] if draw(st.booleans()) else []), list(draw(st.permutations(c2))))
+    return {"lines": lines, "entries": entries, "forms": forms}
+
+
+def add_bundle(r, layout, bundle):
+    """Put the bundle into the rendered workspace as a file of its own (same source form and line ends)."""
+    fixed = layout.fixed
+    name = "zq_sub.f" if fixed else "zq_sub.f90"
+    ls = [("      " + l) if fixed else l for l in bundle["lines"]]
+    r.files[name] = layout.eol.join(ls) + layout.eol
+    r.lines[name] = ls
+    return name
+
+
+def check_bundle(srv, root, fname, bundle, discs):
+    resp, _ = srv.request("textDocument/documentSymbol", {"textDocument": {"uri": uri_of(os.path.join(root, fname))}})
+    if "error" in resp:
+        discs.append(Disc("documentSymbol:error", f"{fname}: {str(resp['error'])[:200]}", {"file": fname}))
+        return
+    got = resp.get("result") or []
+    text = "\n".join(bundle["lines"])
+    used = set()
+    for (name, kind, container, sl, el, required) in bundle["entries"]:
+        cands = [i for i, g in enumerate(got) if g["name"].lower() == name.lower() and g["location"]["range"]["start"]["line"] == sl]
+        used.update(cands)
+        if not required:
+            continue
+        what = "submodule" if bundle["lines"][sl].lower().lstrip().startswith("submodule") else {2: "module", 12: "procedure", 5: "type"}[kind]
+        ok = [i for i in cands if got[i].get("kind") == kind]
+        if len(ok) != 1:
+            same = [(g["name"], g["kind"], g["location"]["range"]["start"]["line"]) for g in got if g["location"]["range"]["start"]["line"] == sl]
+            discs.append(Disc(f"outline:submodule-bundle:{what}:listed-{len(ok)}-times", f"{fname}: {what} {name} (line {sl}: {bundle['lines'][sl].strip()!r}) expected once with kind {kind}; "
+                              f"entries starting on that line: {same}", {"file": fname}))
+            continue
+        g = got[ok[0]]
+        if g["location"]["range"]["end"]["line"] != el:
+            discs.append(Disc(f"outline:submodule-bundle:{what}:end-line", f"{fname}: {what} {name} ends at line {g['location']['range']['end']['line']}, its END statement "
+                              f"{bundle['lines'][el].strip()!r} is on line {el}", {"file": fname}))
+        if (g.get("containerName") or "").lower() != (container or "").lower():
+            discs.append(Disc(f"outline:submodule-bundle:{what}:container", f"{fname}: {what} {name} has container {g.get('containerName')!r}, expected {container!r}", {"file": fname}))
+    for i, g in enumerate(got):
+        if i not in used:
+            ln = g["location"]["range"]["start"]["line"]
+            discs.append(Disc("outline:entry-matches-no-declared-entity", f"{fname}: entry {g['name']!r} kind {g['kind']} at line {ln} "
+                              f"({bundle['lines'][ln].strip()[:60] if ln < len(bundle['lines']) else '?'!r}) is not declared there", {"file": fname}))
+
+
+def check_program(ctx, prog, layout, queries, scratch, bundle=None):
     layout = dataclasses.replace(layout, split_every=0, join_every=0, indent=min(layout.indent, 4))
     r = fmodel.render(prog, layout)
     fws.gfortran_sample(ctx, r)
+    bname = add_bundle(r, layout, bundle) if bundle else None
     root = os.path.join(scratch, "c04_ws")
     srv, _ = fws.start(r, root, open_files=False)
     exp = model_outline(prog, r)
@@ -82,6 +240,11 @@ def check_program(ctx, prog, layout, queries, scratch):
              sample={"files": {k: v[:500] for k, v in list(r.files.items())[:1]}, "end_style": layout.end_style, "units": nunits},
              classes=[f"end:{layout.end_style}", f"kw:{layout.kwcase}", f"units:{nunits}"] + (["constructs"] if nested else []))
     for fname in sorted(r.files):
+        if fname == bname:
+            check_bundle(srv, root, fname, bundle, discs)
+            for fm in bundle["forms"]:
+                ctx.event("submodule-bundle:" + fm)
+            continue
         resp, _ = srv.request("textDocument/documentSymbol", {"textDocument": {"uri": uri_of(os.path.join(root, fname))}})
         if "error" in resp:
             discs.append(Disc("documentSymbol:error", f"{fname}: {str(resp['error'])[:200]}", {"file": fname}))
@@ -145,6 +308,13 @@ def check_program(ctx, prog, layout, queries, scratch):
             for e in sc.declared.values():
                 if e.id in decls:
                     members.append((e.name, u.name, fname, None, e))
+    opt_members = set()
+    if bundle:
+        for (name, kind, container, sl, el, required) in bundle["entries"]:
+            if container in (None, "zq_host", "zq_s1", "zq_s2") and not (container is None and kind is None):
+                m = (name, container, bname, None, _E("bundle"))
+                # units and members of the host module are indexed like any module's; members of a submodule: either way
+                (members.append(m) if container in (None, "zq_host") else opt_members.add((name.lower(), container.lower(), bname)))
     for q in queries:
         resp, _ = srv.request("workspace/symbol", {"query": q})
         if "error" in resp:
@@ -164,7 +334,7 @@ def check_program(ctx, prog, layout, queries, scratch):
         # a prototype inside an (unnamed) abstract interface block is not declared *directly* in the module: either way
         protos = {(m[0].lower(), (m[1] or "").lower(), m[2]) for m in members if m[4].kind == "proto" or m[4].attrs.get("interface_body")}
         want = [w for w in want if w not in protos]
-        have = [h for h in have if h not in protos]
+        have = [h for h in have if h not in protos and h not in opt_members]
         if want != have:
             miss = [w for w in want if w not in have]
             extra = [h for h in have if h not in want]
@@ -179,6 +349,10 @@ def check_program(ctx, prog, layout, queries, scratch):
 
 @st.composite
 def case_st(draw):
+    if draw(st.integers(0, 3)) == 0:
+        prog = draw(fmodel.program_st(nfiles=(1, 1)))
+        layout = draw(fmodel.layout_st)
+        return prog, layout, ["", "zq", "ZQ_S", "work", draw(st.sampled_from(["s1", "s2", "_t", "host", "q_"]))], draw(submod_bundle_st())
     prog = draw(fmodel.program_st())
     layout = draw(fmodel.layout_st)
     names = sorted({e.name for e in prog.ents if e.kind in ("module", "program", "variable", "subroutine", "function", "type", "interface")})
@@ -190,18 +364,24 @@ def case_st(draw):
         sub = n[a:b]
         qs.append(draw(st.sampled_from([sub, sub.upper(), sub.capitalize()])))
     qs.append(draw(st.sampled_from(["zzzz", "_", "m_", "t_", "G_"])))
-    return prog, layout, qs
+    return prog, layout, qs, None
 
 
 def run(ctx):
     def oracle(v):
-        prog, layout, qs = v
-        return check_program(ctx, prog, layout, qs, ctx.scratch)[0]
+        prog, layout, qs, bundle = v
+        return check_program(ctx, prog, layout, qs, ctx.scratch, bundle)[0]
 
     def case_of(v):
-        prog, layout, qs = v
-        r = fmodel.render(prog, dataclasses.replace(layout, split_every=0, join_every=0, indent=min(layout.indent, 4)))
-        return {"files": r.files, "queries": qs}
+        prog, layout, qs, bundle = v
+        layout = dataclasses.replace(layout, split_every=0, join_every=0, indent=min(layout.indent, 4))
+        r = fmodel.render(prog, layout)
+        case = {"files": r.files, "queries": qs}
+        if bundle:
+            bname = add_bundle(r, layout, bundle)
+            case["outline"] = {bname: "required-only"}
+            case["required"] = {bname: [[n.lower(), k, (c or "").lower(), sl, el] for (n, k, c, sl, el, req) in bundle["entries"] if req]}
+        return case
 
     ctx.hyp(case_st(), oracle, max_examples=ctx.n(160, 3000), case_of=case_of, collect=bool(os.environ.get("VERIF_COLLECT")))
     for sig, v in ctx.violations.items():
@@ -233,7 +413,13 @@ def replay(ctx, case):
                 discs.append(Disc(case.get("signature", "outline:replay"), f"{n}: entry {g['name']} at line {sl} not on a line naming it"))
             elif g["kind"] in (2, 12, 5, 11) and el >= sl and not re.match(r"\s*(\d+\s+)?end(?!\s*file)", lines[el], re.I) and el != sl:
                 discs.append(Disc(case.get("signature", "outline:replay"), f"{n}: entry {g['name']} ends at line {el} which is not an END statement: {lines[el]!r}"))
-        if "outline" in case and n in case["outline"]:
+        if n in case.get("required", {}):
+            have = [[g["name"].lower(), g["kind"], (g.get("containerName") or "").lower(), g["location"]["range"]["start"]["line"],
+                     g["location"]["range"]["end"]["line"]] for g in resp.get("result") or []]
+            for w in case["required"][n]:
+                if have.count(w) != 1:
+                    discs.append(Disc(case.get("signature", "outline:replay"), f"{n}: expected entry {w} listed {have.count(w)} times; on that line: {[h for h in have if h[3] == w[3]]}"))
+        elif "outline" in case and n in case["outline"]:
             have = sorted([g["name"].lower(), g["kind"], (g.get("containerName") or "").lower(), g["location"]["range"]["start"]["line"],
                            g["location"]["range"]["end"]["line"]] for g in resp.get("result") or [])
             if have != sorted(case["outline"][n]):
